@@ -1,6 +1,6 @@
 SPECIFICATION Spec
-CONSTANTS Scenarios <- Scn
-INVARIANTS TypeOK DeleterCalledAtMostOnce ResultDestroyedAtMostOnce DeleterCalledExactlyOnce ResultDestroyedExactlyOnce OpDestroyedExactlyOnce FutureCompletes FutureResultMatches DoneOnlyIfDoneOrCancelledEarly AvailableResultWinsOverStop DropOrCancelRequestsStop
+CONSTANTS Scenarios <- Scn  MutDestroyAfterHandover = FALSE
+INVARIANTS TypeOK DeleterCalledAtMostOnce ResultDestroyedAtMostOnce DeleterCalledExactlyOnce ResultDestroyedExactlyOnce OpDestroyedExactlyOnce FutureCompletes FutureResultMatches DoneOnlyIfDoneOrCancelledEarly AvailableResultWinsOverStop DropOrCancelRequestsStop NestedOpDeadBeforeFree
 VIEW View
 ACTION_CONSTRAINT EdgeLog
 CHECK_DEADLOCK TRUE
